@@ -8,7 +8,7 @@
      NewCode : write to a temporary file + os.replace, run_info.json written last,
                DictArray.load reads the file only when it exists               (the repaired code)
    Definitions only. *)
-From Verif Require Import Base.Prelude Base.StrUtil Base.Index Base.NdArr Base.PyRange Base.StrOrd
+From Verif Require Import Base.Prelude Base.StrUtil Base.Index Base.NdArr Base.PyRange Base.StrSeq
   Model.MapSpec Model.MapRun Model.SymBody Model.MapResume.
 
 Inductive variant := OldCode | NewCode.
